@@ -152,6 +152,10 @@ LenEffects(c) ==
   ELSE {<<"huge", 0>>, <<"zero", 0>>, <<"beyond", 0>>, <<"lost", 0>>}
        \cup {<<"resync", j>> : j \in RecOf(c) + 2 .. NRecs + 1}
 
+\* Cut(c): the last byte that reached the disk belongs to cell c (c = 0: nothing did); a cut
+\* inside a multi-byte cell counts that cell, which is why one and two cells of a checksum
+\* both mean "1..3 of its 4 bytes".  Files that lie wholly behind the cut are empty (the
+\* harness also removes them).  Flip(c): one byte of cell c has another value.
 Damages ==
   {[k |-> "none", c |-> 0, e |-> "-", j |-> 0]}
   \cup {[k |-> "cut", c |-> c, e |-> "-", j |-> 0] : c \in 0..Total - 1}
@@ -276,8 +280,8 @@ SearchHeights == 0..NRecs
 
 Search(h, ign) ==
   /\ phase = "damaged" /\ rd.out = <<>>
-  /\ last' = [op |-> "search", s |-> 0, h |-> h, ign |-> ign,
-               res |-> {SearchRes(h, ign, f) : f \in FatesHere}]
+  /\ last' = [op |-> "search", s |-> 0, h |-> h]   \* the result is {SearchRes(h, ign, f) : f \in FatesHere}: a
+                                                    \* query, it changes nothing; exported with Obs below
   /\ UNCHANGED <<phase, recs, disk, bounds, restarts, dmg, rd, hist>>
 
 Next == \/ Open \/ Flush \/ Rotate \/ Close
